@@ -132,6 +132,15 @@ func (p *proxyConn) readRequest() (*http.Request, error) {
 	return req, nil
 }
 
+// mitmFirstByteTimeout is the time a client is given to send the first byte after
+// a CONNECT that is going to be MITMed has been answered.
+func (p *proxyConn) mitmFirstByteTimeout() time.Duration {
+	if p.MITMTLSHandshakeTimeout > 0 {
+		return p.MITMTLSHandshakeTimeout
+	}
+	return p.idleTimeout()
+}
+
 func (p *proxyConn) handleMITM(req *http.Request) error {
 	ctx := req.Context()
 
@@ -150,7 +159,17 @@ func (p *proxyConn) handleMITM(req *http.Request) error {
 	// Successful CONNECT response does not invoke trace.
 	p.traceWroteResponse(res, nil)
 
+	// The read deadline has been cleared after the CONNECT request was read.
+	// Do not wait forever for the client to start the TLS handshake (or to send a request).
+	if d := p.mitmFirstByteTimeout(); d > 0 {
+		if deadlineErr := p.conn.SetReadDeadline(time.Now().Add(d)); deadlineErr != nil {
+			log.Error(ctx, "can't set mitm read deadline", "error", deadlineErr)
+		}
+	}
 	b, err := p.brw.Peek(1)
+	if deadlineErr := p.conn.SetReadDeadline(time.Time{}); deadlineErr != nil && err == nil {
+		log.Error(ctx, "can't clear mitm read deadline", "error", deadlineErr)
+	}
 	if err != nil {
 		if isClosedConnError(err) {
 			log.Debug(ctx, "mitm: connection closed prematurely", "error", err)
